@@ -8,6 +8,10 @@
 2. The driver runs the REAL Pather + MultiSegmentSplitter + DefaultResolver over a real sqlite path
    DB with real segments (expiries on both sides of now, margins >= 150 s) and the real in-memory
    revocation cache (running and run-out revocations, margins >= 30 s).
+   Remote mode: only the local up segments are in the path DB; core and down segments come through the real
+   Fetcher: real resolver (next-query bookkeeping), real DefaultRequester, scripted RPC (matching segments,
+   segments for other destinations, expired and unverifiable ones), real seghandler (segment verifier with real
+   chains in a real trust DB) and DefaultStorage into the real path DB; every lookup is made twice.
 3. PathLookupTrace.tla: requests = PathLookupOps!SplitRequests; every returned path starts at local,
    ends at the destination (core AS of the ISD for wildcards), is unexpired and crosses no revoked
    interface; local destination => one empty path.  Completeness against CombinatorOps is drift.
@@ -22,18 +26,28 @@ import _tlcout
 def run(c):
     drv = c.build("lookup")
     c.mc("PathLookup", "PathLookupMC.%s.cfg" % c.tier, timeout=3000)
+    if c.thorough:
+        # remote fetch in the model: unverifiable reply segments never reach a path (replies within the contract)
+        c.mc("PathLookup", "PathLookupMC.fetch.cfg", timeout=3000)
+        # replies OUTSIDE the contract (valid segments for other destinations): the design hands out a path to a
+        # core AS of the own ISD for a foreign ISD wildcard. A model-only counterexample is never a verdict.
+        r = c.tlc("PathLookup", "PathLookupMC.fetchextra.cfg", timeout=3000)
+        c.notes.append("model with replies outside the request contract: Sound %s (expected: violated; "
+                       "see design_notes/C30.md, 'Remote fetch')" % ("violated" if "Sound" in r.inv_violated else "holds"))
     if c.replay:
         trace = c.replay
     else:
         trace = c.scratch + "/lookup.ndjson"
-        c.run_driver(drv, ["-n", 400 if c.thorough else 40, "-lookups", 6 if c.thorough else 5, "-out", trace])
+        c.run_driver(drv, ["-n", 400 if c.thorough else 40, "-lookups", 6 if c.thorough else 5,
+                           "-remote", 120 if c.thorough else 12, "-out", trace])
     r = c.validate("PathLookupTrace", "PathLookupTrace.cfg", trace, timeout=3000)
     drift = _tlcout.renorm(r)
     c.judge_trace(r, trace)
     if drift:
         c.notes.append("MODEL-DRIFT (not a verdict): %s" % drift)
     st = r.stats
-    if not c.replay and (st.get("paths", 0) == 0 or st.get("expiredcombos", 0) == 0 or st.get("revokedcombos", 0) == 0):
+    if not c.replay and (st.get("paths", 0) == 0 or st.get("expiredcombos", 0) == 0 or st.get("revokedcombos", 0) == 0
+                          or st.get("remotewithpaths", 0) == 0):
         raise vlib.Infra("vacuous run: %s" % st)
     classes = set()
     with open(trace) as f:
